@@ -21,6 +21,9 @@ WITNESS_SEARCH = {
     'nodup_fringe': ('nodup_fringe_fuzz', ['$SEED', 40000]),
     'simple_fringe': ('simple_fringe_fuzz', ['$SEED', 40000]),
     'cache_api': ('cache_fuzz', ['$SEED', 40000]),
+    'seq_solver': ('solver_fuzz', ['$SEED', 3000]),
+    'par_solver': ('solver_fuzz', ['$SEED', 250, 'par']),
+    'par_owner': ('solver_fuzz', ['$SEED', 250, 'par']),
     'dominance_checker': ('dominance_fuzz', ['$SEED', 60000]),
 }
 
